@@ -282,8 +282,14 @@ def execute(scen):
                 if scen["mode"] == "direct":
                     polls = [t for t, v in sent if v[0] == "getProperties"]
                 else:
-                    # network mode: polls are observed at the stub server; zero latency => same instant
-                    polls = None
+                    # network mode: polls are observed at the stub server; zero latency => arrival instant == send instant
+                    polls = []
+                    acc = b""
+                    for t, data in ctl.timed:
+                        before = acc[base_len:].count(b"<getProperties ")
+                        acc += data
+                        polls += [t] * (acc[base_len:].count(b"<getProperties ") - before)
+                    sent = [(t, ("getProperties", (("device", "D"), ("name", "V")) if w["filter_dev"] else (("name", "V"),), None, ())) for t in polls]
                 if polls is not None:
                     exp_polls = []
                     if w["poll"] is not None:
